@@ -136,7 +136,7 @@ def rule_argorder(ctx):
     # extra returns: a variant that integrates with a scalar spacing instead of the coordinate
     for r in rets[:-1]:
         kw_ = {k.arg: norm(k.value) for k in r.value.keywords}
-        passes_x = len(r.value.args) > 1 and norm(r.value.args[1]) == x
+        passes_x = (len(r.value.args) > 1 and norm(r.value.args[1]) == x) or kw_.get("x") == x
         if not passes_x:
             guards = []
             n_ = parent(r)
@@ -470,10 +470,18 @@ def rule_p2h(ctx):
     for st in flow.stmts:
         if isinstance(st, ast.Assign) and isinstance(st.targets[0], ast.Name):
             A.setdefault(st.targets[0].id, []).append(st)
+    # the temperature the densities are computed with: the caller's, or - when none is given - the standard atmosphere addressed by pressure
+    dcalls = calls_in(f.node, "density")
+    if len(dcalls) != 1 or len(dcalls[0].args) < 2:
+        raise AnalysisError("pressure2height: the call density(p, T) was not found")
+    got_T = {}
+    for none_ in (True, False):
+        asm = {"%s is None" % tn: none_, "%s is not None" % tn: not none_}
+        got_T[none_] = str(norm(flow.resolve_under(dcalls[0].args[1], asm, at=dcalls[0], stop=(pn,) + (() if none_ else (tn,))))).replace(" ", "").replace('"', "'")
     first = f.body[0]
-    ok_d = isinstance(first, ast.If) and norm(first.test) == "%s is None" % tn and len(first.body) == 1 \
-        and norm(first.body[0]).replace(" ", "").replace('"', "'") == "%s=standard_atmosphere(%s,coordinates='pressure')" % (tn, pn)
-    ctx.ob("pressure2height.default_T", ok_d, "%s" % norm(first)[:90], "T = standard_atmosphere(p, coordinates='pressure') when no temperature is given", node=first, func=f)
+    ok_d = got_T[True] == "standard_atmosphere(%s,coordinates='pressure')" % pn and got_T[False] == tn
+    ctx.ob("pressure2height.default_T", ok_d, "density(p, T) with T = %s when none is given, %s otherwise" % (got_T[True][:70], got_T[False][:40]),
+           "T = standard_atmosphere(p, coordinates='pressure') when no temperature is given", node=dcalls[0], func=f)
     # layer mean density and the increment, element model of one layer between the levels 0 and 1: the argument of cumsum is evaluated with
     # diff(p) -> dp, density(p, T)[:-1] -> r0, density(p, T)[1:] -> r1 (temporaries looked through, any spelling the algebra understands)
     cs = calls_in(f.node, "cumsum")
